@@ -718,3 +718,65 @@ func ruleNoContainerWriteOnCompiled(w *World, r *Report, rule string, reach map[
 	}
 	return n
 }
+
+// CAPTURED-CTX: a function literal that runs per call (it has a context.Context parameter of its own) must not hand a
+// context captured from the function that built it (a constructor: NewAgent, a graph builder) to anything: every run
+// would share that one context — its values, its deadline, its cancellation.
+type capturedCtxUse struct {
+	lit  *ssa.Function
+	call ssa.Instruction
+	fv   *ssa.FreeVar
+}
+
+func isContextType(t types.Type) bool {
+	n := namedOf(t)
+	return n != nil && n.Obj().Pkg() != nil && n.Obj().Pkg().Path() == "context" && n.Obj().Name() == "Context"
+}
+
+func capturedCtxUses(fns []*ssa.Function) (uses []capturedCtxUse, examined int) {
+	for _, fn := range fns {
+		if fn.Parent() == nil {
+			continue
+		}
+		own := false
+		for _, p := range fn.Params {
+			if isContextType(p.Type()) {
+				own = true
+			}
+		}
+		if !own {
+			continue
+		}
+		examined++
+		for _, fv := range fn.FreeVars {
+			// captured by reference (*context.Context cell) or by value
+			t := fv.Type()
+			if p, ok := t.(*types.Pointer); ok {
+				t = p.Elem()
+			}
+			if !isContextType(t) {
+				continue
+			}
+			// the captured cell must belong to a function that is not itself a per-call literal sharing the same ctx param
+			for _, ref := range *fv.Referrers() {
+				var vals []ssa.Value
+				if u, ok := ref.(*ssa.UnOp); ok {
+					vals = append(vals, u)
+				} else if _, ok := ref.(ssa.CallInstruction); ok {
+					vals = append(vals, fv)
+				}
+				for _, v := range vals {
+					for _, r2 := range *v.Referrers() {
+						if c, ok := r2.(ssa.CallInstruction); ok {
+							uses = append(uses, capturedCtxUse{fn, c, fv})
+						}
+					}
+					if c, ok := ref.(ssa.CallInstruction); ok && v == ssa.Value(fv) {
+						uses = append(uses, capturedCtxUse{fn, c, fv})
+					}
+				}
+			}
+		}
+	}
+	return
+}
